@@ -4,6 +4,7 @@ Oracle: unit table built from the schema XML (oracle/units.py). Monitors: valida
 HedString.validate and the real HedTag.value_as_default_unit for every (tag, unit, modifier, spelling) x numerals.
 """
 import math
+import zlib
 import random
 
 from hedmon.core import env
@@ -18,7 +19,7 @@ RULE = ("every value-taking node with unit classes of every bundled schema x eve
 ASSUMPTIONS = ["unit oracle hedmon/oracle/units.py (plural table hand-written; irregular/unclear plurals are not tested)",
                "conversion-factor literals are read with '^' == 'e', as the schema data itself does",
                "spellings with two derivations of different factor (e.g. 'uV' in 8.3.0) are excluded from the factor check"]
-MIN_MONITOR_EVALS = {"accepted-validates": 2000, "rejected-flagged": 300, "unit-first-rejected": 100, "bare-number": 50, "conversion": 1500,
+MIN_MONITOR_EVALS = {"accepted-validates": 2000, "rejected-flagged": 300, "unit-first-rejected": 100, "shared-validator-agrees": 1000, "bare-number": 50, "conversion": 1500,
                      "linearity": 500, "unknown-unit-none": 300}
 NUMERALS_Q = ["3", "0.5", "2.5E-2", "-7", "+4", "12.", ".5", "1e3", "0", "0.0", "-0"]
 UNIT_CODES = {"UNITS_INVALID", "VALUE_INVALID"}
@@ -61,6 +62,9 @@ def make_text(name, num, unit, prefix_unit):
     return f"{name}/{unit} {num}" if prefix_unit else f"{name}/{num} {unit}"
 
 
+_validators = {}
+
+
 def check_case(case, rec):
     """case: dict(schema, node, kind in accepted|rejected|bare, num, unit, prefix)"""
     from hed.models.hed_string import HedString
@@ -88,6 +92,22 @@ def check_case(case, rec):
     def key_for_blank():
         return "unit-name-with-blank" if blank_name else None
 
+    if kind in ("accepted", "bare") and zlib.crc32(text.encode()) % 4 == 0 and "creation-date" in o.by_short:
+        # one validator object that was first shown the same value text under a tag of another value class
+        from hed.validator.hed_validator import HedValidator
+        rec.mon("shared-validator-agrees")
+        try:
+            hv = _validators.setdefault(ns + v, HedValidator(schema))
+            value_text = text.split("/", 1)[1]
+            for first in (f"{ns}Creation-date/{value_text}", f"{ns}Creation-date/{num}", f"{ns}Label/{num}"):
+                hv.validate(HedString(first, schema), False)
+            shared = sorted({i["code"] for i in hv.validate(HedString(text, schema), False)
+                             if i.get("severity", 1) == ErrorSeverity.ERROR})
+        except Exception as ex:  # noqa
+            rec.violation(f"a validator used for several annotations raised {type(ex).__name__}", case)
+            shared = None
+        if shared is not None and shared != sorted({i["code"] for i in errs}):
+            rec.violation("the verdict on a unit-carrying tag depends on what its validator was shown before", case)
     if kind == "accepted":
         rec.mon("accepted-validates")
         if ucodes:
